@@ -622,7 +622,7 @@ impl Drop for Store {
 // Arena of leaves
 // ------------------------------------------------------------------------------------------
 
-pub const NR: usize = 5;
+pub const NR: usize = 6;
 pub const NM: usize = 3;
 pub const NPM: usize = 2;
 pub const NPR: usize = 2;
